@@ -71,6 +71,10 @@ structure Ladder where
   /-- symbols of the type syntax (for annotations `(t::T)`, `%x::T. t`) and the `::` terminal -/
   ty : TySyms := { tick := 0, qtick := 0, arrowA := 0, arrowU := 0, comma := 0 }
   dcolon : Nat := 0
+  /-- `{`, `..`, `}` of the interval syntax `{m..n}` -/
+  lbrace : Nat := 0
+  dotdot : Nat := 0
+  rbrace : Nat := 0
   deriving Repr
 
 inductive Skel
@@ -84,6 +88,12 @@ inductive Skel
   | ann (t : Skel) (ty : Ty)
   /-- `%x::T. body`: a binder whose bound variable carries a type annotation -/
   | binderT (b : Nat) (x : List Nat) (ty : Ty) (body : Skel)
+  /-- `{m..n}`: the interval literal (`nat_interval m n`) -/
+  | interval (a b : Skel)
+  /-- `{x. body}`: set comprehension (`collect (%x. body)`) -/
+  | collect (x : List Nat) (body : Skel)
+  /-- `{x::T. body}`: set comprehension with the type of the bound variable shown -/
+  | collectT (x : List Nat) (ty : Ty) (body : Skel)
   deriving DecidableEq, Repr, Inhabited
 
 /-! ### Printer -/
@@ -108,6 +118,9 @@ def Skel.cls : Skel → Cls
   | .ite _ _ _ => .opn
   | .ann _ _ => .atom
   | .binderT _ _ _ _ => .opn
+  | .interval _ _ => .app
+  | .collect _ _ => .app
+  | .collectT _ _ _ => .app
 
 def Table.row (T : Table) (o : Nat) : OpRow := T.ops.getD o default
 
@@ -173,6 +186,9 @@ def printSkel (T : Table) (L : Ladder) (uni : Bool) : Skel → List Tok
   | .ite c a b => .kif :: printSkel T L uni c ++ .kthen :: printSkel T L uni a ++ .kelse :: printSkel T L uni b
   | .ann t ty => .lp :: (printSkel T L uni t ++ .sym L.dcolon :: (printTy L.ty uni ty ++ [.rp]))
   | .binderT b x ty body => .sym (binderSpell T L uni b) :: .id x :: .sym L.dcolon :: (printTy L.ty uni ty ++ .dot :: printSkel T L uni body)
+  | .interval a b => .sym L.lbrace :: (printSkel T L uni a ++ .sym L.dotdot :: (printSkel T L uni b ++ [.sym L.rbrace]))
+  | .collect x body => .sym L.lbrace :: .id x :: .dot :: (printSkel T L uni body ++ [.sym L.rbrace])
+  | .collectT x ty body => .sym L.lbrace :: .id x :: .sym L.dcolon :: (printTy L.ty uni ty ++ .dot :: (printSkel T L uni body ++ [.sym L.rbrace]))
 
 /-! ### Parser -/
 
@@ -194,7 +210,7 @@ def atomStart (L : Ladder) : List Tok → Bool
   | _ => false
 
 /-- rule `atom` (the alternatives of the precedence core); `self i` parses a term at ladder level `i` -/
-def atomP (L : Ladder) (self : Nat → List Tok → PRes) : List Tok → PRes
+def atomP' (L : Ladder) (self : Nat → List Tok → PRes) : List Tok → PRes
   | .id s :: r => some (.atom s, r)
   | .lp :: r =>
     match self 0 r with
@@ -235,6 +251,36 @@ def atomP (L : Ladder) (self : Nat → List Tok → PRes) : List Tok → PRes
       | _, _ => none
     else none
   | _ => none
+
+/-- after "{": term ".." term "}" (rule `nat_interval`), CNAME ". " term "}" (`collect_set_notype`),
+CNAME "::" type ". " term "}" (`collect_set`); set literals are not modelled.  One term is read first; what
+follows it decides (on printed texts this is what the LALR parser does with one token of lookahead). -/
+def braceP (L : Ladder) (self : Nat → List Tok → PRes) (r : List Tok) : PRes :=
+  match self 0 r with
+  | some (a, .sym d :: r1) =>
+    if d = L.dotdot then
+      match self 0 r1 with
+      | some (b, .sym e :: r2) => if e = L.rbrace then some (.interval a b, r2) else none
+      | _ => none
+    else if d = L.dcolon then
+      match a, parseTyAt L.ty (r1.length + 1) r1 with
+      | .atom x, some (ty, .dot :: r2) =>
+        match self 0 r2 with
+        | some (body, .sym e :: r3) => if e = L.rbrace then some (.collectT x ty body, r3) else none
+        | _ => none
+      | _, _ => none
+    else none
+  | some (.atom x, .dot :: r1) =>
+    match self 0 r1 with
+    | some (body, .sym e :: r2) => if e = L.rbrace then some (.collect x body, r2) else none
+    | _ => none
+  | _ => none
+
+/-- rule `atom` -/
+def atomP (L : Ladder) (self : Nat → List Tok → PRes) (ts : List Tok) : PRes :=
+  match ts with
+  | .sym s :: r => if s = L.lbrace then braceP L self r else atomP' L self ts
+  | _ => atomP' L self ts
 
 /-- rule `comb: comb atom | atom` after the first atom: left-nested application loop -/
 def appLoop (L : Ladder) (self : Nat → List Tok → PRes) : Nat → Skel → List Tok → PRes
@@ -425,7 +471,9 @@ abbrev LadderOK (T : Table) (L : Ladder) : Prop :=
   -- every binder row of operator.py / pprint.py is spelled the way one binder alternative of the grammar is
   ((∀ r ∈ T.allBinders, (L.binderIdx r.ascii).isSome = true ∧ L.binderIdx r.unicode = L.binderIdx r.ascii) ∧
    -- `::` is no operator symbol and no binder spelling; the type symbols are distinct
-   (L.binderIdx L.dcolon = none ∧ (∀ j < L.n, (L.at j).has L.dcolon = false) ∧ L.ty.ok))
+   (L.binderIdx L.dcolon = none ∧ (∀ j < L.n, (L.at j).has L.dcolon = false) ∧ L.ty.ok) ∧
+   -- `{`, `..`, `}` are no operator symbols and no binder spellings
+   ((∀ s ∈ [L.lbrace, L.dotdot, L.rbrace], L.binderIdx s = none ∧ ∀ j < L.n, (L.at j).has s = false) ∧ L.dcolon ≠ L.dotdot))
 
 /-- every bracket the printer omits is one the grammar does not need; spellings agree -/
 abbrev TableConsistent (T : Table) (L : Ladder) : Prop :=
@@ -441,5 +489,8 @@ def Skel.WF (T : Table) (L : Ladder) : Skel → Prop
   | .ite c a b => c.WF T L ∧ a.WF T L ∧ b.WF T L
   | .ann t _ => t.WF T L
   | .binderT b _ _ body => b < L.binders.length ∧ body.WF T L
+  | .interval a b => a.WF T L ∧ b.WF T L
+  | .collect _ body => body.WF T L
+  | .collectT _ _ body => body.WF T L
 
 end Holpy.C07
